@@ -34,6 +34,9 @@ var solvers = []solverSpec{
 	{"cvc5", func(f string, t, seed int) []string {
 		return []string{"cvc5", "-q", "--lang=smt2", fmt.Sprintf("--tlimit=%d", t*1000), fmt.Sprintf("--seed=%d", seed), f}
 	}},
+	{"cvc5-enum", func(f string, t, seed int) []string {
+		return []string{"cvc5", "-q", "--lang=smt2", "--enum-inst", fmt.Sprintf("--tlimit=%d", t*1000), fmt.Sprintf("--seed=%d", seed), f}
+	}},
 	{"z3", func(f string, t, seed int) []string {
 		return []string{"/usr/bin/z3", fmt.Sprintf("-T:%d", t), fmt.Sprintf("smt.random_seed=%d", seed), f}
 	}},
